@@ -7,9 +7,10 @@ Model: `IsoVerif.Pico` (M-PICO, executable, tied to crates/pico by the `pico` co
 
 F1 and F2 (absent singleton then first write; remove then inner re-run) were repaired in /repo
 79c6822 and the model follows the repaired code.  The full statement `C01_statement` is still
-FALSE of today's code: the two witness theorems below exhibit histories (replayed against the real
+FALSE of today's code: the witness theorem below exhibits a history (replayed against the real
 crate on every run, corpus/C01) on which the model — which agrees with the crate — answers
-something else than a from-scratch evaluation (a caught panic; a spurious panic caused by F22).
+something else than a from-scratch evaluation: a caught panic leaves stale verified nodes.  F22
+(and with it the spurious panic and the re-entrant stale read it caused) was repaired as well.
 What is proved is the family of `_partial` theorems, each with its extra hypothesis spelled out.
 -/
 import IsoVerif.Lemmas.Pico
@@ -43,16 +44,33 @@ theorem C01_witness_after_panic :
     ¬ C01_statement_at 8 10 [⟨0, .src .param⟩] [.set 0 5, .call 0 0, .rem 0, .call 0 0, .call 0 0] :=
   fun H => absurd (H [.set 0 5, .call 0 0, .rem 0, .call 0 0] 0 0 [] rfl) (by decide +kernel)
 
-/-- Consequence of F22 (and the reason why `CleanCalls` alone is not enough for nested programs):
-a node that registered itself on the caller's frame while a callee was being verified is re-executed
-first when the caller is verified again — here after its source was removed — and the call panics,
-although the from-scratch evaluation of the call succeeds (`g` no longer reaches the stale node). -/
-theorem C01_witness_stale_dep_panic :
-    ¬ C01_statement_at 8 10
-        [⟨0, .call 1 .param⟩, ⟨0, .ite (.src (.lit 5)) (.call 2 .param) (.lit 0)⟩, ⟨0, .src .param⟩]
-        [.set 5 1, .set 0 3, .set 9 0, .call 1 0, .set 9 1, .call 0 0, .set 5 0, .rem 0, .call 0 0] :=
-  fun H => absurd (H [.set 5 1, .set 0 3, .set 9 0, .call 1 0, .set 9 1, .call 0 0, .set 5 0, .rem 0] 0 0 [] rfl)
-    (by decide +kernel)
+/-- F22 (repaired, /repo): a node that had registered itself on the caller's frame while a callee
+was being verified used to be re-executed first when the caller was verified again — here after its
+source was removed — so that the call panicked although its from-scratch evaluation succeeds.  The
+same history on the repaired code: -/
+example : C01_statement_at 8 10
+    [⟨0, .call 1 .param⟩, ⟨0, .ite (.src (.lit 5)) (.call 2 .param) (.lit 0)⟩, ⟨0, .src .param⟩]
+    [.set 5 1, .set 0 3, .set 9 0, .call 1 0, .set 9 1, .call 0 0, .set 5 0, .rem 0, .call 0 0] := by
+  intro pre f a rest hh
+  have hcases : pre = [.set 5 1, .set 0 3, .set 9 0] ∨ pre = [.set 5 1, .set 0 3, .set 9 0, .call 1 0, .set 9 1] ∨
+      pre = [.set 5 1, .set 0 3, .set 9 0, .call 1 0, .set 9 1, .call 0 0, .set 5 0, .rem 0] := by
+    match pre, hh with
+    | [], hh => simp at hh
+    | [_], hh => simp at hh
+    | [_, _], hh => simp at hh
+    | [_, _, _], hh => simp at hh; simp [hh.1, hh.2.1, hh.2.2.1]
+    | [_, _, _, _], hh => simp at hh
+    | [_, _, _, _, _], hh => simp at hh; simp [hh.1, hh.2.1, hh.2.2.1, hh.2.2.2.1, hh.2.2.2.2.1]
+    | [_, _, _, _, _, _], hh => simp at hh
+    | [_, _, _, _, _, _, _], hh => simp at hh
+    | [_, _, _, _, _, _, _, _], hh =>
+      simp at hh
+      simp [hh.1, hh.2.1, hh.2.2.1, hh.2.2.2.1, hh.2.2.2.2.1, hh.2.2.2.2.2.1, hh.2.2.2.2.2.2.1, hh.2.2.2.2.2.2.2.1]
+    | _ :: _ :: _ :: _ :: _ :: _ :: _ :: _ :: _ :: _, hh => simp at hh
+  rcases hcases with rfl | rfl | rfl
+  · simp at hh; obtain ⟨⟨rfl, rfl⟩, _⟩ := hh; decide +kernel
+  · simp at hh; obtain ⟨⟨rfl, rfl⟩, _⟩ := hh; decide +kernel
+  · simp at hh; obtain ⟨⟨rfl, rfl⟩, _⟩ := hh; decide +kernel
 
 /-! ### what is proved -/
 
